@@ -19,6 +19,10 @@ type C04Payload struct {
 	Argv      []BStr             `json:"argv,omitempty"`
 	Argv0     []BStr             `json:"argv0,omitempty"` // adversarial mode: an earlier ParseArgs on the same parser
 	HasFirst  bool               `json:"has_first,omitempty"`
+	// LateHelp: the parser is built and used once WITHOUT HelpFlag; the flag is
+	// then switched on (Parser.Options is a public field) and the line with the
+	// help request is parsed by the same parser.
+	LateHelp bool `json:"late_help,omitempty"`
 	Fd1Faults []simrt.WriteFault `json:"fd1_faults,omitempty"`
 	Fd2Faults []simrt.WriteFault `json:"fd2_faults,omitempty"`
 	EmptyComp bool               `json:"empty_completion_env,omitempty"` // GO_FLAGS_COMPLETION="" must behave like unset
@@ -111,6 +115,9 @@ func (propC04) Gen(r *Rng, idx int, tier string) *Scenario {
 			for try := 0; try < 8; try++ {
 				if f, ok := genArgFault(fr, sc.Decl, p.Plan, calls); ok {
 					p.Fault = &f
+					if f.Kind == "help" && fr.Chance(1, 3) {
+						p.LateHelp = true
+					}
 					break
 				}
 			}
@@ -201,6 +208,12 @@ func c04Run(sc *Scenario, argv []string, callee []CalleeFault, env map[string]st
 		op.Fd1Faults, op.Fd2Faults = sc.C04.Fd1Faults, sc.C04.Fd2Faults
 	}
 	s2.Ops = []Op{op}
+	if sc.C04 != nil && sc.C04.LateHelp && sc.C04.Plan != nil {
+		d2 := *sc.Decl
+		d2.Options &^= optHelpFlag
+		s2.Decl = &d2
+		s2.Ops = []Op{{Kind: "parse", Argv: bstrs(sc.C04.Plan.argv())}, {Kind: "setopts", IniOpts: sc.Decl.Options | optHelpFlag}, op}
+	}
 	if sc.C04 != nil && sc.C04.Mode == "adversarial" && sc.C04.HasFirst {
 		s2.Ops = []Op{{Kind: "parse", Argv: sc.C04.Argv0}, op}
 	}
@@ -355,6 +368,9 @@ func (propC04) Judge(sc *Scenario) *Verdict {
 	}
 	r := lastOp(o)
 	label := "ParseArgs"
+	if len(o.Ops) == 3 {
+		label = "ParseArgs after HelpFlag was switched on"
+	}
 	if len(o.Ops) == 2 {
 		label = "second ParseArgs on the same parser"
 		if ab := abnormal(&o.Ops[0]); ab != "" {
@@ -471,6 +487,9 @@ func (propC04) Reductions(sc *Scenario) []func(*Scenario) bool {
 	}
 	if p.EmptyComp {
 		out = append(out, func(s *Scenario) bool { s.C04.EmptyComp = false; return true })
+	}
+	if p.LateHelp {
+		out = append(out, func(s *Scenario) bool { s.C04.LateHelp = false; return true })
 	}
 	if p.HasFirst {
 		out = append(out, func(s *Scenario) bool { s.C04.Argv0, s.C04.HasFirst = nil, false; return true })
